@@ -194,7 +194,7 @@ impl Hb {
     }
 }
 
-pub const STATE_NAMES: [&str; 8] = [
+pub const STATE_NAMES: [&str; 9] = [
     "None",
     "Created",
     "Sendable",
@@ -203,6 +203,7 @@ pub const STATE_NAMES: [&str; 8] = [
     "RxBusy",
     "RxDone",
     "RxProcessing",
+    "Abandoned",
 ];
 
 pub fn state_name(s: u8) -> &'static str {
@@ -226,13 +227,28 @@ pub fn documented_transition(from: u8, to: u8) -> bool {
     )
 }
 
-/// Additional edges that deadlines, retries, abandonment and reset legitimately add.
-pub fn deadline_transition(from: u8, to: u8) -> bool {
-    matches!(
-        (from, to),
-        (2, 0) | (4, 0) | (6, 0) // release from Sendable / Sent / RxDone
-            | (4, 2) // retry: Sent -> Sendable
-            | (2, 2) // retry while still Sendable (TX has not serviced it)
-            | (0, 0) // reset of a free slot
-    )
+/// The TX-side edges are only legal when performed by the TX side.
+pub fn actor_ok(from: u8, to: u8, caller_site: u16) -> bool {
+    use ethercrab::verif::site;
+    match (from, to) {
+        (3, 4) | (3, 2) => caller_site == site::SEND_AFTER_CLOSURE,
+        _ => true,
+    }
+}
+
+/// Additional edges that deadlines, retries, abandonment and reset legitimately add, by actor.
+pub fn deadline_transition(from: u8, to: u8, caller_site: u16) -> bool {
+    use ethercrab::verif::site;
+    match caller_site {
+        // Giving up: only a frame nobody else is inside may be freed.
+        // A frame the TX or RX side is inside is marked abandoned instead (that side frees it).
+        site::RECV_POLL_AFTER_TIMER | site::RECV_DROP => matches!((from, to), (2, 0) | (4, 0) | (6, 0) | (3, 8) | (5, 8)),
+        site::SEND_AFTER_CLOSURE | site::RX_AFTER_COPY => matches!((from, to), (8, 0)),
+        // Retry: only a frame that was sent and got no response is queued again.
+        site::RECV_POLL_RETRY => matches!((from, to), (4, 2) | (2, 2)),
+        // The receive side found the claimed frame now belongs to another request: hand it back.
+        site::RX_AFTER_LOOKUP => matches!((from, to), (5, 4) | (8, 0)),
+        site::RESET => to == 0,
+        _ => false,
+    }
 }
